@@ -326,16 +326,19 @@ def _short(out):
 # more adapters
 # --------------------------------------------------------------------------
 class AQBC(Adapter):
-    name = "QueryByCommittee[KL_divergence]"
     needs_clf = True
     product_abstraction = True
+
+    def __init__(self, method="KL_divergence"):
+        self.method = method
+        self.name = f"QueryByCommittee[{method}]"
     units = ["skactiveml.pool._query_by_committee:QueryByCommittee.query",
              "skactiveml.pool._query_by_committee:QueryByCommittee._aggregate_predict_probas",
              "skactiveml.pool._query_by_committee:average_kl_divergence",
              "skactiveml.pool._query_by_committee:_check_ensemble"]
 
     def make(self, seed, sym=True, inputs=None, **kw):
-        return pool().QueryByCommittee(method="KL_divergence", random_state=seed, **kw)
+        return pool().QueryByCommittee(method=self.method, random_state=seed, **kw)
 
     def ensemble(self, sym, table, K):
         if sym:
@@ -528,4 +531,169 @@ class AFalcun(Adapter):
 
 for _a in (AFalcun(), AQBC(), ACoreSet(), AGreedyX(), ADiscriminative(True), ADiscriminative(False), ATypiClust(), ABald(True),
            ABald(False)):
+    register(_a)
+
+
+# --------------------------------------------------------------------------
+# cluster- / neighbour-based strategies (second batch of adapters)
+# --------------------------------------------------------------------------
+def make_stub_transform_clusterer():
+    """KMeans-like clusterer by contract: fit_transform returns one finite non-negative distance per (sample, centroid);
+    nothing else is assumed. Values are solver variables named by call position, so they are a deterministic function
+    of the call."""
+    class StubTransformClusterer:
+        def __init__(self, n_clusters=2, random_state=None, **kw):
+            self.n_clusters = n_clusters
+            self.random_state = random_state
+
+        def fit_transform(self, X, y=None, sample_weight=None):
+            c = core.ctx()
+            n = len(X)
+            rows = []
+            for i in range(n):
+                row = []
+                for k in range(self.n_clusters):
+                    t = core.fresh_float(f"cdist_{n}_{self.n_clusters}_{i}_{k}")
+                    c.add(t.r >= 0)
+                    row.append(t)
+                rows.append(row)
+            if not hasattr(c, "inputs"):
+                c.inputs = {}
+            c.inputs["__cdist__"] = rows
+            return arrays.SymNd(arrays._to_obj(rows).reshape(n, self.n_clusters), float)
+    return StubTransformClusterer
+
+
+def real_table_transform_clusterer(rows):
+    class TableTransformClusterer:
+        def __init__(self, n_clusters=2, random_state=None, **kw):
+            self.n_clusters = n_clusters
+
+        def fit_transform(self, X, y=None, sample_weight=None):
+            out = np.zeros((len(X), self.n_clusters))
+            for i in range(len(X)):
+                for k in range(self.n_clusters):
+                    try:
+                        out[i, k] = float(rows[i][k])
+                    except (IndexError, TypeError):
+                        pass
+            return out
+    return TableTransformClusterer
+
+
+class AClue(Adapter):
+    needs_clf = True
+    independent = False
+    supports_rows = False
+
+    def __init__(self, method="entropy"):
+        self.method = method
+        self.name = f"Clue[{method}]"
+        self.product_abstraction = method == "entropy"
+        self.units = ["skactiveml.pool._clue:Clue.query", "skactiveml.pool._uncertainty_sampling:uncertainty_scores"]
+
+    def make(self, seed, sym=True, inputs=None, **kw):
+        if sym:
+            clusterer = make_stub_transform_clusterer()
+        else:
+            clusterer = real_table_transform_clusterer((inputs or {}).get("__cdist__", []))
+        return pool().Clue(random_state=seed, cluster_algo=clusterer, method=self.method, **kw)
+
+    def call(self, qs, s, b, sym, table=None, return_utilities=True):
+        return qs.query(s.X, s.y, self.clf(sym, table, s.K), fit_clf=False, candidates=s.cand, batch_size=b,
+                        return_utilities=return_utilities)
+
+
+def _sym_abs_distances(X):
+    """exact pairwise distances of one-feature rows: |x_i - x_j|"""
+    X = arrays.asnd(X)
+    n = X.shape[0]
+    out = np.empty((n, n), dtype=object)
+    r = arrays.raw(X)
+    for i in range(n):
+        for j in range(n):
+            if i == j:
+                out[i, j] = 0.0
+            elif j < i:
+                out[i, j] = out[j, i]
+            else:
+                dsum = 0.0
+                for f in range(X.shape[1]):
+                    dsum = core.s_add(dsum, F.abs(core.s_sub(r[i, f], r[j, f])))
+                out[i, j] = dsum
+    return arrays.SymNd(out, float)
+
+
+class AProbCover(Adapter):
+    name = "ProbCover"
+    slow = True
+    independent = False
+    supports_rows = False
+    units = ["skactiveml.pool._prob_cover:ProbCover.query"]
+
+    def make(self, seed, sym=True, inputs=None, **kw):
+        if sym:
+            return pool().ProbCover(random_state=seed, cluster_algo=make_stub_clusterer(), deltas=[0.5, 1.0],
+                                    distance_func=_sym_abs_distances, **kw)
+        clusterer = real_table_clusterer((inputs or {}).get("__clusters__", [0] * 16))
+        return pool().ProbCover(random_state=seed, cluster_algo=clusterer, deltas=[0.5, 1.0], **kw)
+
+    def call(self, qs, s, b, sym, table=None, return_utilities=True):
+        return qs.query(s.X, s.y, candidates=s.cand, batch_size=b, return_utilities=return_utilities)
+
+
+class _NearestNeighborsStub:
+    """sklearn.neighbors.NearestNeighbors by contract (exact for the L1/L2 metric on the rows handed over): kneighbors
+    returns, per query row, the indices of the n_neighbors closest fitted rows in ascending distance (stable)."""
+
+    def __init__(self, n_neighbors=5, **kw):
+        self.n_neighbors = n_neighbors
+
+    def fit(self, X, y=None):
+        self.X_ = arrays.asnd(X)
+        return self
+
+    def kneighbors(self, X, n_neighbors=None, return_distance=True):
+        X = arrays.asnd(X)
+        k = self.n_neighbors if n_neighbors is None else n_neighbors
+        rows = []
+        rl, rq = arrays.raw(self.X_), arrays.raw(X)
+        for i in range(X.shape[0]):
+            ds = []
+            for j in range(self.X_.shape[0]):
+                dsum = 0.0
+                for f in range(X.shape[1]):
+                    dsum = core.s_add(dsum, F.abs(core.s_sub(rq[i, f], rl[j, f])))
+                ds.append(dsum)
+            order = F.argsort(arrays.SymNd(arrays._to_obj(ds), float), kind="stable")
+            rows.append([int(v) for v in order][:k])
+        idx = np.array(rows, dtype=int).reshape(X.shape[0], k)
+        if return_distance:
+            raise core.Unencodable("kneighbors(return_distance=True)")
+        return idx
+
+
+_stubs.MODULE_STUBS[("skactiveml.pool._contrastive_al", "NearestNeighbors")] = _NearestNeighborsStub
+
+
+class AContrastive(Adapter):
+    needs_clf = True
+    slow = True
+    product_abstraction = True
+
+    def __init__(self, k=None):
+        self.k = k
+        self.name = "ContrastiveAL" if k is None else f"ContrastiveAL[n_neighbors={k}]"
+        self.units = ["skactiveml.pool._contrastive_al:ContrastiveAL.query"]
+
+    def make(self, seed, sym=True, inputs=None, **kw):
+        d = None if self.k is None else {"n_neighbors": self.k}
+        return pool().ContrastiveAL(random_state=seed, nearest_neighbors_dict=d, **kw)
+
+    def call(self, qs, s, b, sym, table=None, return_utilities=True):
+        return qs.query(s.X, s.y, self.clf(sym, table, s.K), fit_clf=False, candidates=s.cand, batch_size=b,
+                        return_utilities=return_utilities)
+
+
+for _a in (AQBC("vote_entropy"), AQBC("variation_ratios"), AClue("least_confident"), AClue("entropy"), AProbCover(), AContrastive(), AContrastive(1)):
     register(_a)
